@@ -11,11 +11,13 @@ import mir
 from mir import short, is_place, op_local
 
 LEVEL = 'other'
-EXPLANATION = ('Decides necessary structural clauses of C17 (which value is carried forward between days, and that the figures are the true '
-               'maxima, are relations over run-time sequences and are not decided — a known carry-forward defect lies outside these rules): '
+EXPLANATION = ('Decides necessary structural clauses of C17 (that the figures are the true maxima is a relation over run-time sequences and is '
+               'not decided): '
                'per-day figures are keyed by Tx.settlement_date and take post_status.total_acb; rows of other / registered affiliates are '
                'skipped only together with a note in the ignored list; same-day observations combine by max and the total is updated as '
-               'total - old + new; the yearly table keys a day by its own year and keeps the earlier day unless the new total is strictly larger.')
+               'total - old + new; the yearly table keys a day by its own year and keeps the earlier day unless the new total is strictly larger; '
+               'nothing is recorded before the skip filters; the figure carried to days without a transaction is the closing cost, not the '
+               'day maximum; every delta reaches the cost pass unfiltered; a security\'s opening cost is recorded once.')
 TRUSTED_BASE = ['rustc nightly MIR construction and trait resolution']
 ASSUMPTIONS = []
 
